@@ -2,6 +2,7 @@
 
 Input: list of (seg_id, [element strings]) in file order (simple elements; composites joined).
 """
+import re
 ENV = ('ISA', 'GS', 'ST', 'SE', 'GE', 'IEA')
 ENV_CODES = {('isa', '025'), ('isa', '001'), ('isa', '021'), ('isa', '023'), ('isa', '024'), ('isa', '022'),
              ('gs', '6'), ('gs', '4'), ('gs', '5'), ('gs', '3'),
@@ -9,11 +10,15 @@ ENV_CODES = {('isa', '025'), ('isa', '001'), ('isa', '021'), ('isa', '023'), ('i
              ('seg', 'HL1'), ('seg', 'HL2'), ('seg', 'LX')}
 
 
+_NUM = re.compile(r'-?[0-9]+\Z')
+
+
 def toint(s):
-    try:
-        return int(s)
-    except (ValueError, TypeError):
+    """the value of an X12 numeric (optional minus, ASCII digits, leading zeros allowed) or None - int() alone would also take
+    '+4', ' 4', '0_4' and digits of other scripts"""
+    if not isinstance(s, str) or not _NUM.match(s):
         return None
+    return int(s)
 
 
 def el(elems, i):
@@ -64,7 +69,7 @@ def recount(segs, check_lx=False):
     """For a well-nested sequence: (per_segment, final, hl2_exact) where per_segment[i] is the sorted list of
     (level, code) discrepancies an independent recount attributes to segment i, final the missing-trailer
     discrepancies at end of input, and hl2_exact[i] tells whether the HL-parent verdict at segment i is defined
-    (it is not after the first bad parent or a second root HL of the same set)."""
+    (it is not after a second root HL of the same set)."""
     per = []
     exact = []
     isa_ids = set()
@@ -141,9 +146,9 @@ def recount(segs, check_lx=False):
                 else:
                     p = toint(parent)
                     if p is None or p not in path:
+                        # a parent that is not an open level: reported; the open levels stay, the HL joins them
                         d.append(('seg', 'HL2'))
-                        hl_defined = False
-                        path = [n_hl]
+                        path.append(n_hl)
                     else:
                         while path and path[-1] != p:
                             path.pop()
